@@ -66,7 +66,7 @@ class Doc:
         kw['id'] = len(self.out) + 1
         for k, v in dict(elem='', variant='', kind='', mut='', inp=EMPTY, outp=EMPTY, res=OKRES, res2=OKRES, res3=OKRES,
                          same23=True, t0='', t1='', t2='', chk0=True, chk1=True, a0=[], a1=[], target='', tw=0, inside=[], alone=[],
-                         rootok=True, ownok=True, addok=True, insw=[], outw=[]).items():
+                         rootok=True, rooticok=True, ownok=True, addok=True, insw=[], outw=[]).items():
             kw.setdefault(k, v)
         self.out.append(kw)
         return kw['id']
@@ -139,6 +139,19 @@ class Doc:
                 self.trip(name, 'text-exterior-blanks', lambda: cls('  a  b ', **kwargs))
                 self.trip(name, 'text-inner-whitespace', lambda: cls('a\n b  c\td', **kwargs))
                 self.trip(name, 'text-markup', lambda: cls('<&>"\' é\U0001d11e', **kwargs))
+            # integer-valued types without an upper bound: a value no binary float holds exactly
+            lv = self.leaves(st)
+            ints = [l for l in lv if J['st'][l]['prim'] == 'decimal' and J['st'][l]['int']]
+            if ints and not any(J['st'][l]['hasMax'] for l in ints):
+                self.trip(name, 'text-bigint', lambda: cls(2 ** 53 + 1, **kwargs))
+            # types that take a number as well as the empty string (unions with an empty literal): both, in this order,
+            # in one process -- what the parser learnt from one document must not decide how it reads the next
+            if ints and any(J['st'][l]['hasEnum'] and '' in J['st'][l]['enum'] for l in lv):
+                n0 = next(J['st'][l]['minV'] if J['st'][l]['hasMin'] else 1 for l in ints)
+                self.trip(name, 'text-number', lambda: cls(max(n0, 2), **kwargs))
+                self.trip(name, 'text-empty-after-number', lambda: cls('', **kwargs))
+            # the first document once more, after everything else this process has read for the class
+            self.trip(name, 'minimal-again', lambda: F.mk(name))
 
     # ---- C09 --------------------------------------------------------------------------
     def parse_event(self, elem, kind, mut, node):
@@ -180,12 +193,22 @@ class Doc:
                 d = B.build(name)
                 d.text = 'a\n b  c\td'
                 docs.append(('text-inner-whitespace', d))
+            ints = [l for l in leaves if J['st'][l]['prim'] == 'decimal' and J['st'][l]['int']]
+            if ints and not any(J['st'][l]['hasMax'] for l in ints):
+                d = B.build(name)
+                d.text = str(2 ** 53 + 1)           # valid: xs:integer is unbounded
+                docs.append(('text-bigint', d))
         for k, (desc, d) in enumerate(docs):
             root = B.wrap(name, d) if wrap else d
             self.parse_event(name, 'valid', desc, root)
             if k < nmut:
                 for md, m in SD.mutants(d):
                     self.parse_event(name, 'mutant', desc + '|' + md, B.wrap(name, m) if wrap else m)
+        if tt and len(self.leaves(tt)) == 1 and J['st'][tt if not J['st'][tt]['union'] else self.leaves(tt)[0]]['prim'] == 'decimal' \
+                and J['st'][self.leaves(tt)[0]]['int']:
+            m = B.build(name)
+            m.text = (m.text or '1').strip() + '.7'      # a fraction where the schema wants an integer: refuse, or keep it
+            self.parse_event(name, 'mutant', 'text-fraction-in-integer', B.wrap(name, m) if wrap else m)
 
     def leaves(self, tn):
         d = self.F.J['st'][tn]
@@ -373,9 +396,10 @@ class Doc:
         if r0['ok']:
             P, C = pc
             rr, text = call(lambda: P.to_string())
+            ri, _ = call(lambda: P.to_string(intelligent_choice=True))
             ro, _ = call(lambda: C.to_string())
             ra, _ = call(lambda: C.add_child(F.mk(alien)))
-            self.emit(op='mixed', elem=name, variant='unchecked-root', target=par, res=rr, rootok=rr['ok'], ownok=ro['ok'], addok=ra['ok'],
+            self.emit(op='mixed', elem=name, variant='unchecked-root', target=par, res=rr, rootok=rr['ok'], rooticok=ri['ok'], ownok=ro['ok'], addok=ra['ok'],
                       insw=[c.name for c in P.get_children(ordered=False)], outw=out_names(text) if rr['ok'] else [])
         # (b) checked complete root holding an unchecked child that carries arbitrary children
         def b():
@@ -394,12 +418,13 @@ class Doc:
             P, U = pu
             ra, _ = call(lambda: (U.add_child(F.mk(alien)), U.add_child(F.mk(alien))))
             rr, text = call(lambda: P.to_string())
+            ri, _ = call(lambda: P.to_string(intelligent_choice=True))
             inner = []
             if rr['ok']:
                 root = ET.fromstring(text)
                 node = next((c for c in root if c.tag == name), None)
                 inner = [c.tag for c in node] if node is not None else ['!missing']
-            self.emit(op='mixed', elem=name, variant='unchecked-inner', target=par, res=rr, rootok=rr['ok'], ownok=True, addok=ra['ok'],
+            self.emit(op='mixed', elem=name, variant='unchecked-inner', target=par, res=rr, rootok=rr['ok'], rooticok=ri['ok'], ownok=True, addok=ra['ok'],
                       insw=[c.name for c in U.get_children(ordered=False)], outw=inner)
 
     # ---- C16: a subtree serialises to the same content alone as inside its parent, before and after it is mutated -------
